@@ -13,7 +13,8 @@ ROOT = Path(__file__).resolve().parent.parent
 def main():
     diff = Path(sys.argv[1]).resolve()
     checks = sys.argv[2].split(",")
-    tier = sys.argv[4] if len(sys.argv) > 4 and sys.argv[3] == "--tier" else "quick"
+    tier = sys.argv[sys.argv.index("--tier") + 1] if "--tier" in sys.argv else "quick"
+    expect = int(sys.argv[sys.argv.index("--expect") + 1]) if "--expect" in sys.argv else 1
     scratch = Path(tempfile.mkdtemp(prefix="vopy-mut-"))
     try:
         shutil.copytree("/repo/vopy", scratch / "vopy", ignore=shutil.ignore_patterns("__pycache__"))
@@ -27,8 +28,8 @@ def main():
                        VERIF_REPLAY_DIR=str(scratch / "rp"))
             r = subprocess.run([str(ROOT / "check"), c, "--tier", tier], env=env, capture_output=True, text=True)
             first = [l for l in r.stdout.splitlines() if l.startswith(("VIOLATION", "INCONCLUSIVE", "  mechanism"))][:2]
-            print(f"{diff.name:45s} {c} rc={r.returncode} {'CAUGHT' if r.returncode == 1 else 'MISSED'} {first}")
-            if r.returncode != 1:
+            print(f"{diff.name:45s} {c} rc={r.returncode} {'AS-EXPECTED' if r.returncode == expect else 'UNEXPECTED'} {first}")
+            if r.returncode != expect:
                 ok = False
                 print(r.stdout[-1500:], r.stderr[-500:])
         return 0 if ok else 1
